@@ -1,4 +1,5 @@
-(* C05: `lax model || strict model | strict wire spec` per case.
+(* C05: `lax model || strict model | strict wire spec |L lax reference decoder |P strict
+   reference decoder with the partial packet at the point of rejection` per case.
    Whole-packet entries eth / et:<n> / ip; single-layer entries lip, lip4, lip6,
    lmacsec, ludp, lx6:<nh>, lx4:<nh> (spec part `-`). *)
 open M_c05
@@ -34,6 +35,14 @@ let lvres = function
   | LVErr e -> "err " ^ slice_err e
   | LVBug s -> "BUG " ^ sn s
 
+(* instrumented strict reference decoder: `rej <error> @@ <layers in front of the fault>` *)
+let pres_s = function
+  | PAcc p -> vres (VOk p)
+  | PRej (p, e) ->
+    let s = vres (VOk p) in
+    "rej " ^ slice_err e ^ " @@ " ^ String.sub s 3 (String.length s - 3)
+  | PBug s -> "BUG " ^ sn s
+
 (* generic result printing *)
 let pres f = function
   | Ok a -> "ok " ^ f a
@@ -55,13 +64,16 @@ let run (line : string) : string =
     if entry = "eth" then
       lvres (lvres_of (LaxSlicedPacket.from_ethernet bs)) ^ " || "
       ^ vres (vres_of (SlicedPacket.from_ethernet bs)) ^ " | " ^ vres (wire_ethernet bs)
+      ^ " |L " ^ lvres (lwire_ethernet bs) ^ " |P " ^ pres_s (pwire_ethernet bs)
     else if entry = "ip" then
       lvres (lvres_of (LaxSlicedPacket.from_ip bs)) ^ " || "
       ^ vres (vres_of (SlicedPacket.from_ip bs)) ^ " | " ^ vres (wire_from_ip bs)
+      ^ " |L " ^ lvres (lwire_from_ip bs) ^ " |P " ^ pres_s (pwire_from_ip bs)
     else if starts entry "et:" then begin
       let et = arg entry 3 in
       lvres (lvres_of (LaxSlicedPacket.from_ether_type et bs)) ^ " || "
       ^ vres (vres_of (SlicedPacket.from_ether_type et bs)) ^ " | " ^ vres (wire_ether_type bs et)
+      ^ " |L " ^ lvres (lwire_ether_type bs et) ^ " |P " ^ pres_s (pwire_ether_type bs et)
     end
     else if entry = "lip" then
       pres (fun (ip, st) ->
